@@ -89,7 +89,9 @@ def gen_reject(g):
                 hid = set(pt.m.hidden())
                 cands = [r for r, t in m.ref_toks.items() if t in hid]
             else:
-                cands = [r for r, t in m.ref_toks.items() if t not in pt.m.scope]
+                # int columns only: the surrounding expression stays well typed, so that the
+                # scope error is the only error of the construction
+                cands = [r for r, t in m.ref_toks.items() if t not in pt.m.scope and T[t].kind == "int"]
             if not cands:
                 continue
             st["ref"] = rng.choice(cands)
@@ -249,6 +251,8 @@ class RejectsMixin:
 
     def build_reject(self, step, rep, t, o):
         rule, verb = step["rule"], step["verb"]
+        if step.get("ref") and rep not in self.refs[step["ref"]]:
+            raise Skip("reference not on this replica")
         new = step["new"]
         c_int = self.col(step, t, step["int"], rep) if step.get("int") else None
         c_int2 = self.col(step, t, step["int2"], rep) if step.get("int2") else None
